@@ -80,7 +80,16 @@ def render_rule(rule):
     if rule["kind"] == "aggregate":
         return "define viral propagation vp1 (variable At_1) is aggregate %s end viral propagation;" % rule["fn"]
     q = lambda v: '"%s"' % v
-    cl = ["when %s and %s then %s" % (q(v1), q(v2), q(r)) for (v1, v2), r in rule["binary"]] + ["when %s then %s" % (q(v), q(r)) for v, r in rule["unary"]]
+    b = ["when %s and %s then %s" % (q(v1), q(v2), q(r)) for (v1, v2), r in rule["binary"]]
+    u = ["when %s then %s" % (q(v), q(r)) for v, r in rule["unary"]]
+    # declaration order: the relative order inside each kind is kept (it is the priority among clauses of that kind); how binary and
+    # unary clauses are interleaved in the text must not matter - binary clauses always take precedence over unary ones
+    cl, bi, ui = [], 0, 0
+    for pick in (rule.get("interleave") or []) + [0] * len(b) + [1] * len(u):
+        if pick == 0 and bi < len(b):
+            cl.append(b[bi]); bi += 1
+        elif pick == 1 and ui < len(u):
+            cl.append(u[ui]); ui += 1
     if rule["default"] is not None:
         cl.append("else %s" % q(rule["default"]))
     return "define viral propagation vp1 (variable At_1) is %s end viral propagation;" % "; ".join(cl)
@@ -104,7 +113,7 @@ def rule_strategy():
         unary = [(v, draw(st.sampled_from(VALUES + ["Y"]))) for v in un_vals]
         if not binary and not unary:
             unary = [("A", "A")]
-        return dict(kind="enumerated", binary=binary, unary=unary, default=draw(st.sampled_from(["D", None, "A"])))
+        return dict(kind="enumerated", binary=binary, unary=unary, default=draw(st.sampled_from(["D", None, "A"])), interleave=draw(st.lists(st.integers(0, 1), max_size=6)))
     return build()
 
 
@@ -196,8 +205,13 @@ def expected(case):
         groups = {}
         for r in data["DS_1"]:
             groups.setdefault(r[gi], []).append(r["At_1"])
+        other = "Id_2" if gi == "Id_1" else "Id_1"
+        spelling = ["partition by %s" % gi, "partition except %s" % other, "partition by %s" % gi, "partition except all"][sub]
+        if sub == 3:   # one partition holding every datapoint
+            groups = {None: [r["At_1"] for r in data["DS_1"]]}
+            gi = None
         # explicit whole-partition window: the default frame without ORDER BY is not fixed by the offline sources (see C06)
-        return "R <- sum(DS_1 over (partition by %s order by %s data points between unbounded preceding and unbounded following));" % (gi, "Id_2" if gi == "Id_1" else "Id_1"), ["DS_1"], {key_of(r): fold(groups[r[gi]]) for r in data["DS_1"]}
+        return "R <- sum(DS_1 over (%s order by %s data points between unbounded preceding and unbounded following));" % (spelling, other if gi else "Id_1, Id_2"), ["DS_1"], {key_of(r): fold(groups[r[gi] if gi else None]) for r in data["DS_1"]}
     if op == "filter":
         thr = [0, 1, -5, 100][sub]
         return "R <- DS_1 [filter Me_1 > %d];" % thr, ["DS_1"], {key_of(r): r["At_1"] for r in data["DS_1"] if r["Me_1"] is not None and r["Me_1"] > thr}
